@@ -207,6 +207,9 @@ func (s *Stream) readBuf() []byte {
 	return s.buf[s.cursor+remainNotNulCharNum:]
 }
 
+// maxConsecutiveEmptyReads bounds the retries of a reader that returns no data and no error.
+const maxConsecutiveEmptyReads = 100
+
 func (s *Stream) read() bool {
 	if s.allRead {
 		return false
@@ -215,6 +218,10 @@ func (s *Stream) read() bool {
 	last := len(buf) - 1
 	buf[last] = nul
 	n, err := s.r.Read(buf[:last])
+	for i := 0; n == 0 && err == nil && i < maxConsecutiveEmptyReads; i++ {
+		// io.Reader may return 0, nil; callers of read() expect progress or EOF
+		n, err = s.r.Read(buf[:last])
+	}
 	s.length += int64(n)
 	if n == last {
 		s.filledBuffer = true
